@@ -234,8 +234,11 @@ CLAIMED = {
             "configurations and 53 budget-manager / stream-strategy configurations incl. symbolic defaults and "
             "caller-owned dicts; after every call TLC compares the digest ids of every get_params(deep=True) entry and "
             "of every caller-owned object, and after every training call the band-encoded predictions with those of a "
-            "clone of the unfitted prototype that received exactly the calls the specification prescribes.",
-            "DESIGN.md 5 (C13)", TRUST),
+            "clone of the unfitted prototype that received exactly the calls the specification prescribes; for the "
+            "wrappers around scikit-learn estimators (also around estimators the caller has fitted) additionally with "
+            "the predictions of the wrapped estimator driven directly on the labeled rows of the same calls "
+            "(DESIGN.md 11.2).",
+            "DESIGN.md 5 (C13), 11.2", TRUST),
 }
 
 NOT_YET = {}
